@@ -24,7 +24,7 @@ META = {
     "stubs": ["CphotAng helpers -> deterministic uninterpreted functions (see C08)", "atm.us_std_atm_altitude_from_pressure -> uninterpreted function alt_of_p", "astropy.io.fits.open -> recorder of the file name returning a small symbolic map"],
     "assumptions": ["REAL mode", "altitude steps zs increase along the track (valid_arrays)", "a map cell 'contains' a location when the chosen grid node lies within one grid spacing of it in both coordinates (lenient reference: any of the bracketing nodes is accepted)"],
 }
-LEDGER = {"quick": 815, "thorough": 800}
+LEDGER = {"quick": 815, "thorough": 865}
 
 
 def cloud_run(K, regime):
